@@ -13,6 +13,7 @@ import (
 	"path/filepath"
 	"sort"
 	"strings"
+	"sync"
 
 	"github.com/benbjohnson/litestream"
 	"github.com/benbjohnson/litestream/file"
@@ -581,71 +582,137 @@ func genUpload(e *env) error {
 	defer os.RemoveAll(root)
 
 	// (1) exhaustive: a fixed local set 1..3, every schedule of up to maxLen client
-	// calls, consumed by repeated syncs, then the fault-free sync.
-	src, err := newSrcDB(filepath.Join(root, "ex"))
-	if err != nil {
-		return err
-	}
-	if err := src.open(file.NewReplicaClient(filepath.Join(root, "ex", "unused"))); err != nil {
-		return err
-	}
-	for i := 0; i < 3; i++ {
-		if err := src.write(r); err != nil {
-			return err
-		}
-	}
+	// calls, consumed by repeated syncs, then the fault-free sync. Several
+	// databases work through the schedules in parallel; results keep enumeration order.
 	alpha := []cOutcome{{0, 0}, {1, 0}, {2, 0}, {3, 40}, {4, 150}}
 	maxLen := 4
 	if e.thorough {
 		maxLen = 6
 	}
-	count := 0
-	var rec func(prefix []cOutcome) error
-	rec = func(prefix []cOutcome) error {
-		remote := filepath.Join(root, "ex", fmt.Sprintf("r%d", count))
-		count++
-		h := newUpHistory(src, remote)
-		h.noteLocal()
-		rest := append([]cOutcome(nil), prefix...)
-		for round := 0; round < 10 && len(rest) > 0; round++ {
-			rest = h.sync(0, rest)
-		}
-		h.sync(0, nil)
-		h.emit(e, fmt.Sprintf("upload/exhaustive/len%d", len(prefix)))
-		h.finalChecks(e, "exhaustive", count%40 == 1)
-		_ = os.RemoveAll(remote)
+	var scheds [][]cOutcome
+	var rec func(prefix []cOutcome)
+	rec = func(prefix []cOutcome) {
+		scheds = append(scheds, append([]cOutcome(nil), prefix...))
 		if len(prefix) == maxLen {
-			return nil
+			return
 		}
 		for _, a := range alpha {
-			if err := rec(append(prefix, a)); err != nil {
-				return err
-			}
+			rec(append(prefix, a))
 		}
-		return nil
 	}
-	if err := rec(nil); err != nil {
-		return err
+	rec(nil)
+	type exRes struct {
+		h     *upHistory
+		final func(e *env)
 	}
-	src.close()
+	hist := make([]*upHistory, len(scheds))
+	finals := make([][]ImplViolation, len(scheds))
+	restores := make([]int, len(scheds))
+	const exWorkers = 8
+	var wg sync.WaitGroup
+	var emu sync.Mutex
+	var exErr error
+	for wi := 0; wi < exWorkers; wi++ {
+		wg.Add(1)
+		go func(wi int) {
+			defer wg.Done()
+			fail := func(err error) {
+				emu.Lock()
+				if exErr == nil {
+					exErr = err
+				}
+				emu.Unlock()
+			}
+			wr := NewRand(e.seed + 1000)
+			dir := filepath.Join(root, fmt.Sprintf("ex%d", wi))
+			src, err := newSrcDB(dir)
+			if err != nil {
+				fail(err)
+				return
+			}
+			if err := src.open(file.NewReplicaClient(filepath.Join(dir, "unused"))); err != nil {
+				fail(err)
+				return
+			}
+			defer src.close()
+			for i := 0; i < 3; i++ {
+				if err := src.writeNew(wr); err != nil {
+					fail(err)
+					return
+				}
+			}
+			for i := wi; i < len(scheds); i += exWorkers {
+				remote := filepath.Join(dir, fmt.Sprintf("r%d", i))
+				h := newUpHistory(src, remote)
+				h.noteLocal()
+				rest := append([]cOutcome(nil), scheds[i]...)
+				for round := 0; round < 10 && len(rest) > 0; round++ {
+					rest = h.sync(0, rest)
+				}
+				h.sync(0, nil)
+				sub := &env{extra: map[string]any{}}
+				h.finalChecks(sub, "exhaustive", i%40 == 0)
+				hist[i], finals[i], restores[i] = h, sub.impl, asInt(sub.extra["upload_restores"])
+				_ = os.RemoveAll(remote)
+			}
+		}(wi)
+	}
+	wg.Wait()
+	if exErr != nil {
+		return exErr
+	}
+	for i, h := range hist {
+		h.emit(e, fmt.Sprintf("upload/exhaustive/len%d", len(scheds[i])))
+		for _, v := range finals[i] {
+			e.violation(v.Signature, v.Detail, v.Replay)
+		}
+		e.extra["upload_restores"] = asInt(e.extra["upload_restores"]) + restores[i]
+	}
 
 	// (2) sampled histories over a growing database
+	_ = r
+	type sres struct {
+		h     *upHistory
+		class string
+		sub   *env
+		err   error
+	}
+	sr := make([]sres, e.n)
+	sem := make(chan struct{}, 8)
+	var wg2 sync.WaitGroup
 	for i := 0; i < e.n; i++ {
-		if err := randomUploadHistory(e, r, filepath.Join(root, fmt.Sprintf("h%d", i))); err != nil {
-			return err
+		wg2.Add(1)
+		sem <- struct{}{}
+		go func(i int) {
+			defer wg2.Done()
+			defer func() { <-sem }()
+			sub := &env{extra: map[string]any{}}
+			h, class, err := randomUploadHistory(sub, NewRand(e.seed+2000+int64(i)), filepath.Join(root, fmt.Sprintf("h%d", i)))
+			sr[i] = sres{h, class, sub, err}
+		}(i)
+	}
+	wg2.Wait()
+	for _, x := range sr {
+		if x.err != nil {
+			return x.err
 		}
+		x.h.emit(e, x.class)
+		for _, v := range x.sub.impl {
+			e.violation(v.Signature, v.Detail, v.Replay)
+		}
+		e.extra["upload_restores"] = asInt(e.extra["upload_restores"]) + asInt(x.sub.extra["upload_restores"])
 	}
 	return nil
 }
 
-func randomUploadHistory(e *env, r *rand.Rand, dir string) error {
+func randomUploadHistory(e *env, r *rand.Rand, dir string) (*upHistory, string, error) {
 	src, err := newSrcDB(dir)
 	if err != nil {
-		return err
+		return nil, "", err
 	}
 	defer os.RemoveAll(dir)
 	if err := src.open(file.NewReplicaClient(filepath.Join(dir, "unused"))); err != nil {
-		return err
+		return nil, "", err
 	}
 	defer src.close()
 	h := newUpHistory(src, filepath.Join(dir, "replica"))
@@ -663,7 +730,7 @@ func randomUploadHistory(e *env, r *rand.Rand, dir string) error {
 			nw := 1 + r.Intn(3)
 			for j := 0; j < nw; j++ {
 				if err := src.write(r); err != nil {
-					return err
+					return nil, "", err
 				}
 			}
 			h.noteLocal()
@@ -702,14 +769,13 @@ func randomUploadHistory(e *env, r *rand.Rand, dir string) error {
 	}
 	if len(src.localL0()) == 0 {
 		if err := src.write(r); err != nil {
-			return err
+			return nil, "", err
 		}
 		h.noteLocal()
 	}
 	h.sync(0, nil) // the fault-free suffix
-	h.emit(e, class)
 	h.finalChecks(e, class, true)
-	return nil
+	return h, class, nil
 }
 
 // replayUpload re-runs the steps of an upload_run case on the real code. The
